@@ -26,6 +26,72 @@ Proof.
     + destruct (N.eqb m' m2); auto.
 Qed.
 
+Lemma store_get_del_other m m' st : m' <> m -> store_get m' (store_del m st) = store_get m' st.
+Proof.
+  intros NE. induction st as [|[m2 c2] r IH]; cbn; [reflexivity|].
+  destruct (N.eqb m m2) eqn:E; cbn.
+  - apply N.eqb_eq in E. subst m2.
+    destruct (N.eqb m' m) eqn:E2; [apply N.eqb_eq in E2; contradiction|reflexivity].
+  - destruct (N.eqb m' m2); auto.
+Qed.
+
+Lemma store_get_touch_other m m' st : m' <> m -> store_get m' (store_touch m st) = store_get m' st.
+Proof.
+  intros NE. unfold store_touch. destruct (store_mem m st); [reflexivity|].
+  now apply store_get_set_other.
+Qed.
+
+(* GetDatum never changes what a slot reads as: an absent slot reads as the zero datum *)
+Lemma store_get_touch m m' st : store_get m' (store_touch m st) = store_get m' st.
+Proof.
+  unfold store_touch. destruct (store_mem m st) eqn:E; [reflexivity|].
+  destruct (N.eq_dec m' m) as [->|NE]; [|now apply store_get_set_other].
+  rewrite store_get_set_same.
+  induction st as [|[m2 c2] r IH]; cbn in *; [reflexivity|].
+  destruct (N.eqb m m2); [discriminate|auto].
+Qed.
+
+Lemma store_mem_set m m' c st : store_mem m' (store_set m c st) = N.eqb m' m || store_mem m' st.
+Proof.
+  induction st as [|[m2 c2] r IH]; cbn.
+  - destruct (N.eqb m' m); reflexivity.
+  - destruct (N.eqb m m2) eqn:E; cbn.
+    + apply N.eqb_eq in E. subst m2. destruct (N.eqb m' m); reflexivity.
+    + rewrite IH. destruct (N.eqb m' m2) eqn:E2; [|reflexivity]. now rewrite orb_true_r.
+Qed.
+
+Lemma store_mem_touch m st : store_mem m (store_touch m st) = true.
+Proof.
+  unfold store_touch. destruct (store_mem m st) eqn:E; [exact E|].
+  now rewrite store_mem_set, N.eqb_refl.
+Qed.
+
+(* no label set is listed twice *)
+Fixpoint store_nodup (st : store) : bool :=
+  match st with
+  | [] => true
+  | (m, _) :: r => negb (store_mem m r) && store_nodup r
+  end.
+
+Lemma store_mem_del_other m m' st : m' <> m -> store_mem m' (store_del m st) = store_mem m' st.
+Proof.
+  intros NE. induction st as [|[m2 c2] r IH]; cbn; [reflexivity|].
+  destruct (N.eqb m m2) eqn:E; cbn.
+  - apply N.eqb_eq in E. subst m2.
+    destruct (N.eqb m' m) eqn:E2; [apply N.eqb_eq in E2; contradiction|reflexivity].
+  - now rewrite IH.
+Qed.
+
+(* after RemoveDatum the label set is gone *)
+Lemma store_mem_del_same m st : store_nodup st = true -> store_mem m (store_del m st) = false.
+Proof.
+  induction st as [|[m2 c2] r IH]; cbn; [reflexivity|]. intros H.
+  apply andb_true_iff in H. destruct H as [H1 H2].
+  destruct (N.eqb m m2) eqn:E; cbn.
+  - apply N.eqb_eq in E. subst m2. now apply negb_true_iff in H1.
+  - rewrite E. auto.
+Qed.
+
 Lemma zero_ns_val : zero_ns = -62135596800000000000.
 Proof. reflexivity. Qed.
 
@@ -123,6 +189,10 @@ Section Proofs.
       destruct s1 as [th1 w1 [m1 t1]], s2 as [th2 w2 [m2 t2]]; cbn in *; subst th2 w2 t2.
       destruct (t_strs th1) as [|v ss]; [cbn; repeat split; auto|].
       apply do_strptime_sim. repeat split; auto.
+    - (* expire *)
+      destruct H as (TH & W & TM & S1 & S2).
+      destruct s1 as [th1 w1 [m1 t1]], s2 as [th2 w2 [m2 t2]]; cbn in *; subst th2 w2 t2.
+      destruct (store_mem m (w_store w1)); cbn; repeat split; auto.
   Qed.
 
   Lemma exec_sim cfg now year evs : forall s1 s2,
@@ -210,6 +280,74 @@ Section Proofs.
       - pose proof (run_line_term cfg l (w, v1)) as H. now rewrite E1 in H.
       - pose proof (run_line_term cfg l (w, v2)) as H. now rewrite E2 in H. }
     apply G; [exact OK|apply vm_init_ok].
+  Qed.
+
+  (* ---- histories in which the world also changes from outside the VM (label
+     sets removed by Store.Gc, or anything else): the VM is not told, and has
+     nothing to be told about ---- *)
+  Notation run_hist_new := (run_hist_new time_parse add_years).
+  Notation run_hstep_new := (run_hstep memo_new strptime_new).
+
+  Lemma run_hstep_ok cfg h w v : vm_ok cfg v -> vm_ok cfg (snd (run_hstep_new cfg h (w, v))).
+  Proof.
+    intros OK. destruct h as [l|f]; [|exact OK]. exact (run_line_ok cfg l w v OK).
+  Qed.
+
+  Lemma run_hist_ok cfg hist : forall w v,
+    vm_ok cfg v -> vm_ok cfg (snd (run_hist_new cfg hist (w, v))).
+  Proof.
+    induction hist as [|h r IH]; intros w v OK; cbn; [exact OK|].
+    unfold TimeReg.run_hist_new, run_hist in *. cbn.
+    destruct (run_hstep_new cfg h (w, v)) as [w' v'] eqn:E.
+    apply IH. pose proof (run_hstep_ok cfg h w v OK) as H. now rewrite E in H.
+  Qed.
+
+  (* one step of a history from two VM states that both satisfy the invariant *)
+  Lemma run_hstep_sim cfg h w (v1 v2 : vmstate memo_new) :
+    vm_ok cfg v1 -> vm_ok cfg v2 ->
+    fst (run_hstep_new cfg h (w, v1)) = fst (run_hstep_new cfg h (w, v2)) /\
+    vm_ok cfg (snd (run_hstep_new cfg h (w, v1))) /\ vm_ok cfg (snd (run_hstep_new cfg h (w, v2))).
+  Proof.
+    intros [T1 S1] [T2 S2]. destruct h as [l|f]; cbn.
+    - destruct (run_line_sim cfg l w v1 v2) as (E & S1' & S2'); auto; [congruence|].
+      repeat split; auto.
+    - repeat split; auto.
+  Qed.
+
+  Theorem line_local_ext cfg (hist : list hstep) l w0 :
+    let wv := run_hist_new cfg hist (w0, vm_init_new) in
+    fst (run_line_new cfg l wv) = fst (run_line_new cfg l (fst wv, vm_init_new)).
+  Proof.
+    intros wv. pose proof (run_hist_ok cfg hist w0 vm_init_new (vm_init_ok cfg)) as [T S].
+    fold wv in T, S. destruct wv as [w v]. cbn [fst snd] in *.
+    destruct (run_line_sim cfg l w v vm_init_new) as (E & _); auto.
+    apply memo_sound_nil.
+  Qed.
+
+  Theorem hist_local_ext cfg (hist more : list hstep) w0 :
+    let wv := run_hist_new cfg hist (w0, vm_init_new) in
+    fst (run_hist_new cfg more wv) = fst (run_hist_new cfg more (fst wv, vm_init_new)).
+  Proof.
+    intros wv.
+    pose proof (run_hist_ok cfg hist w0 vm_init_new (vm_init_ok cfg)) as OK. fold wv in OK.
+    destruct wv as [w v]. cbn [fst snd] in *.
+    assert (G : forall more w (v1 v2 : vmstate memo_new), vm_ok cfg v1 -> vm_ok cfg v2 ->
+              fst (run_hist_new cfg more (w, v1)) = fst (run_hist_new cfg more (w, v2))).
+    { clear. induction more as [|h r IH]; intros w v1 v2 OK1 OK2; [reflexivity|].
+      unfold TimeReg.run_hist_new, run_hist in *. cbn.
+      destruct (run_hstep_sim cfg h w v1 v2 OK1 OK2) as (E & OK1' & OK2').
+      destruct (run_hstep_new cfg h (w, v1)) as [w1 v1'] eqn:E1.
+      destruct (run_hstep_new cfg h (w, v2)) as [w2 v2'] eqn:E2.
+      cbn in E. subst w2. now apply IH. }
+    apply G; [exact OK|apply vm_init_ok].
+  Qed.
+
+  (* a history without outside changes is a history of lines *)
+  Lemma run_hist_lines cfg ls wv :
+    run_hist_new cfg (map HLine ls) wv = run_lines_new cfg ls wv.
+  Proof.
+    revert wv. induction ls as [|l r IH]; intros wv; [reflexivity|].
+    unfold TimeReg.run_hist_new, run_hist, TimeReg.run_lines_new, run_lines in *. cbn. apply IH.
   Qed.
 
   (* ---- within a line ---- *)
@@ -307,6 +445,11 @@ Section Proofs.
       destruct (strptime_spec cfg year layout v).
       + destruct H2 as (A & _ & B). rewrite A. cbn. auto.
       + destruct H2 as (_ & _ & B). congruence.
+    - destruct OK as [T S]. split; [split; auto|reflexivity].
+    - destruct OK as [T S]. split; [split; auto|reflexivity].
+    - destruct OK as [T S]. unfold TimeReg.step_new, step in *. cbn [TimeReg.spec_step].
+      destruct (store_mem m (w_store (s_w s))); cbn in *; [|congruence].
+      split; [split; auto|reflexivity].
   Qed.
 
   Lemma spec_run_app cfg year a : forall b st,
@@ -487,7 +630,7 @@ Section Proofs.
   Qed.
 
   Lemma write_frame cfg now year s e m' :
-    (match e with ESet m | EInc m => m' <> m | _ => True end) ->
+    (match e with ESet m | EInc m | EDel m | EGet m => m' <> m | _ => True end) ->
     store_get m' (w_store (s_w (step_new cfg now year e s))) = store_get m' (w_store (s_w s)).
   Proof.
     intros H. unfold TimeReg.step_new, step. destruct e; cbn; auto.
@@ -496,6 +639,9 @@ Section Proofs.
     - now apply store_get_set_other.
     - destruct (cap_read re k (t_caps (s_th s))); reflexivity.
     - destruct (t_strs (s_th s)); [reflexivity|]. now rewrite do_strptime_store.
+    - now apply store_get_del_other.
+    - now apply store_get_touch_other.
+    - destruct (store_mem m (w_store (s_w s))); reflexivity.
   Qed.
 
   (* captures never come from an earlier line: a slot that no Match of THIS
@@ -655,6 +801,28 @@ Lemma new_memo_same_input :
   w_errs (fst (run_line_new bogus_parse no_adj cfg0 bogus_line wv)) = 2%N /\
   d_val (store_get 0 (w_store (fst (run_line_new bogus_parse no_adj cfg0 bogus_line wv)))) = 0.
 Proof. vm_compute. split; reflexivity. Qed.
+
+(* a label set created by one line, removed from outside the VM (Store.Gc) and
+   named again by a later line; and the same with `del` on the line itself *)
+Definition dim_line (now : Z) : line := {| l_now := now; l_year := 2026; l_evs := [EGet 7; EInc 7] |}.
+Definition dim_del_line (now : Z) : line :=
+  {| l_now := now; l_year := 2026; l_evs := [EGet 7; EInc 7; EDel 7; EExpire 7] |}.
+Definition dim_hist : list hstep :=
+  [HLine (dim_line 1000); HLine (dim_line 2000); HWorld (ext_del [7%N])].
+
+Lemma dim_delete_recreate :
+  let wv2 := run_hist_new bogus_parse no_adj cfg0 [HLine (dim_line 1000); HLine (dim_line 2000)] (w_empty, vm_init_new) in
+  let wv := run_hist_new bogus_parse no_adj cfg0 dim_hist (w_empty, vm_init_new) in
+  (* two lines counted; then the label set is taken away *)
+  store_get 7 (w_store (fst wv2)) = {| d_val := 2; d_time := 2000 |} /\
+  store_mem 7 (w_store (fst wv)) = false /\
+  (* the next line makes a new datum: 1, not 3 *)
+  w_store (fst (run_line_new bogus_parse no_adj cfg0 (dim_line 3000) wv)) =
+    [(0%N, {| d_val := 0; d_time := 0 |}); (7%N, {| d_val := 1; d_time := 3000 |})] /\
+  (* del on the line: the label set is gone, and `del ... after` then fails *)
+  fst (run_line_new bogus_parse no_adj cfg0 (dim_del_line 3000) wv) =
+    {| w_store := [(0%N, {| d_val := 0; d_time := 0 |})]; w_errs := 1 |}.
+Proof. vm_compute. repeat split. Qed.
 
 (* one value under two layouts: 03/04/2020 as 01/02/2006 and as 02/01/2006 *)
 Definition l_mdy : bytes := [48;49;47;48;50;47;50;48;48;54]%N.
